@@ -206,3 +206,67 @@ Fixpoint ins_ok (fresh : bool) (k : kind) (p : path) {struct p} : bool :=
              && (if is_exact k && negb (p_undefined (prims_of cur)) then true else ins_ok true cur p')
              && (is_exact k || idx_fresh_ok c idx)
   end.
+
+(* ---------- remove ---------- *)
+
+(* Collection::merge(removed, original, false) as performed by CompactOptions::Maybe *)
+Definition maybe_ok_o (c : ocoll) (f : bytes) : bool :=
+  ccompat bytes_eqb union_compat (remove_known_o c f) c.
+Definition maybe_ok_a (c : acoll) (idx : nat) : bool :=
+  ccompat Nat.eqb union_compat (remove_shift c idx) c.
+
+(* remove_shift moves only the entry at idx+1: it is right only if nothing is known beyond idx+1 *)
+Definition shift_ok (c : acoll) (idx : nat) : bool :=
+  forallb (fun kv => Nat.leb (fst kv) (S idx)) (known c).
+
+(* the index a segment designates in an array typed c, when the kind determines it *)
+Definition rm_index (c : acoll) (i : Z) : option (option nat) :=   (* None = outside the domain *)
+  if (0 <=? i)%Z then Some (Some (Z.to_nat i))
+  else if contains_any_defined (unknown_kind c) then None
+  else if all_required c && all_defined c then
+         Some (if Nat.leb (Z.to_nat (- i)) (known_len c) then Some (known_len c - Z.to_nat (- i)) else None)
+       else None.
+
+(* `rm_ok k p`: Kind::remove(p, compact) is sound for a value typed k when compact is false or p has
+   at most one segment.  Excluded (known findings): an index removal with more than one known element
+   behind it (remove_shift), removal inside an element/field that is not known (the modification is
+   discarded), negative indices into arrays of unknown length or with optional elements. *)
+Fixpoint rm_ok (k : kind) (p : path) {struct p} : bool :=
+  if is_never k then true else
+  match p with
+  | [] => true
+  | SField f :: p' =>
+      match obj_of k with
+      | None => true
+      | Some c =>
+          match p' with
+          | [] => maybe_ok_o c f
+          | _ :: _ =>
+              match aget bytes_eqb (known c) f with
+              | Some child => rm_ok child p'
+              | None => negb (contains_any_defined (unknown_kind c))
+              end
+          end
+      end
+  | SIndex i :: p' =>
+      match arr_of k with
+      | None => true
+      | Some c =>
+          match rm_index c i with
+          | None => false
+          | Some None => true
+          | Some (Some idx) =>
+              match p' with
+              | [] => shift_ok c idx && maybe_ok_a c idx
+              | _ :: _ =>
+                  match aget Nat.eqb (known c) idx with
+                  | Some child => rm_ok child p'
+                  | None => negb (contains_any_defined (unknown_kind c))
+                  end
+              end
+          end
+      end
+  end.
+
+Definition remove_ok (k : kind) (p : path) (cpt : bool) : bool :=
+  (negb cpt || Nat.leb (length p) 1) && rm_ok k p.
